@@ -425,6 +425,19 @@ func c08Concurrent(ctx *core.Ctx, out *core.Out) {
 		f := wire.Frame{Fin: true, Op: 9, Masked: cfg.Server, Key: [4]byte{1, 2, 3, byte(i)}, Payload: []byte(p)}
 		stream = wire.Append(stream, f)
 	}
+	// time every default ping handler invocation: a pong may only be missing
+	// when the handler really waited out its one-second lock wait
+	var hmu sync.Mutex
+	handled := map[string]time.Duration{}
+	dp := c.PingHandler()
+	c.SetPingHandler(func(p string) error {
+		t := time.Now()
+		err := dp(p)
+		hmu.Lock()
+		handled[p] = time.Since(t)
+		hmu.Unlock()
+		return err
+	})
 	rdDone := make(chan struct{})
 	go func() {
 		defer close(rdDone)
@@ -463,16 +476,14 @@ func c08Concurrent(ctx *core.Ctx, out *core.Out) {
 	time.Sleep(200 * time.Microsecond)
 	b.Write(stream[len(stream)/2:])
 	wg2.Wait()
-	// wait (bounded) until as many pongs as pings are on the wire
-	for i := 0; i < 400; i++ {
-		fs, _, _ := wire.Decode(a.Written())
-		n := 0
-		for _, f := range fs {
-			if f.Op == 10 && pings[string(f.Payload)] {
-				n++
-			}
-		}
+	// wait (bounded) until every ping has been through its handler
+	allHandled := false
+	for i := 0; i < 20000; i++ {
+		hmu.Lock()
+		n := len(handled)
+		hmu.Unlock()
 		if n >= nping {
+			allHandled = true
 			break
 		}
 		time.Sleep(time.Millisecond)
@@ -512,17 +523,18 @@ func c08Concurrent(ctx *core.Ctx, out *core.Out) {
 			return
 		}
 	}
-	missing := 0
+	if !allHandled {
+		out.Inconcl(fmt.Sprintf("only %d of %d pings reached the handler within 20 s (%v elapsed)", len(handled), nping, elapsed))
+		return
+	}
 	for p := range pings {
 		if seen[p] == 0 {
-			missing++
+			if d := handled[p]; d < 900*time.Millisecond {
+				out.Violate("C08:ping-unanswered-under-concurrency", fmt.Sprintf("ping %q was never answered although its handler returned after %v (its one-second wait for the connection cannot have expired)", p, d), desc)
+				return
+			}
+			out.Inconcl("a pong is missing after the handler waited out its one-second limit (best effort)")
 		}
-	}
-	if missing > 0 {
-		if elapsed < 700*time.Millisecond {
-			out.Violate("C08:ping-unanswered-under-concurrency", fmt.Sprintf("%d of %d pings were never answered although the whole run took %v (the handler's 1 s wait cannot have expired)", missing, nping, elapsed), desc)
-			return
-		}
-		out.Inconcl(fmt.Sprintf("%d pongs missing after a slow run (%v): best-effort echo may have timed out", missing, elapsed))
 	}
 }
+
